@@ -43,6 +43,8 @@ type Options struct {
 	WSExposeAll bool
 	Transports  bool // open IPC, HTTP and WS endpoints (in-proc is always there)
 	Clique      bool // proof-of-authority chain (miner_start authorises the keystore wallet as block signer)
+	NoKeys      bool // node.Config.NoKeys: no keystore, no account manager
+	OnlyIPC     bool // with Transports: open the IPC endpoint only (HTTP/WS are started later through admin_startRPC/admin_startWS)
 }
 
 // Env is a running node.
@@ -54,6 +56,8 @@ type Env struct {
 	IPC      string
 	HTTP     string
 	WS       string
+	HTTPPort int
+	WSPort   int
 	cancel   context.CancelFunc
 }
 
@@ -86,9 +90,13 @@ func Start(o Options) (*Env, error) {
 	} else {
 		*chaincfg = *params.TestChainConfig
 	}
-	chaincfg.ChainId = new(big.Int).SetUint64(ChainID)
+	chainID, chainName := uint64(ChainID), "c18verif"
+	if o.Clique {
+		chainID, chainName = ChainID+1, "c18verifclique"
+	}
+	chaincfg.ChainId = new(big.Int).SetUint64(chainID)
 	if params.GetChainConfigByChainId(chaincfg.ChainId) == nil {
-		params.AddChainConfig("c18verif", chaincfg)
+		params.AddChainConfig(chainName, chaincfg)
 	}
 
 	def := node.NewDefaultConfig()
@@ -98,12 +106,13 @@ func Start(o Options) (*Env, error) {
 		DataDir:           o.Dir,
 		UseLightweightKDF: true,
 		Name:              "c18verif",
-		P2P:               &p2p.Config{ChainId: ChainID, NoDiscovery: true, MaxPeers: 0, ListenAddr: "127.0.0.1:0", NAT: "none", NoDial: true},
+		P2P:               &p2p.Config{ChainId: chainID, NoDiscovery: true, MaxPeers: 0, ListenAddr: "127.0.0.1:0", NAT: "none", NoDial: true},
 		RPCAllowIP:        []string{"127.0.0.1/32"},
 		HTTPModules:       def.HTTPModules,
 		WSModules:         def.WSModules,
 		WSExposeAll:       o.WSExposeAll,
 		NoCountdown:       true,
+		NoKeys:            o.NoKeys,
 	}
 	if o.NoDefaults {
 		conf.HTTPModules, conf.WSModules = o.HTTPModules, o.WSModules
@@ -119,11 +128,14 @@ func Start(o Options) (*Env, error) {
 	env := &Env{cancel: cancel}
 	if o.Transports {
 		conf.IPCPath = "c18.ipc"
-		conf.HTTPHost, conf.HTTPPort = "127.0.0.1", freePort()
-		conf.WSHost, conf.WSPort = "127.0.0.1", freePort()
 		conf.WSOrigins = []string{"*"}
-		env.HTTP = fmt.Sprintf("http://127.0.0.1:%d", conf.HTTPPort)
-		env.WS = fmt.Sprintf("ws://127.0.0.1:%d", conf.WSPort)
+		env.HTTPPort, env.WSPort = freePort(), freePort()
+		env.HTTP = fmt.Sprintf("http://127.0.0.1:%d", env.HTTPPort)
+		env.WS = fmt.Sprintf("ws://127.0.0.1:%d", env.WSPort)
+		if !o.OnlyIPC {
+			conf.HTTPHost, conf.HTTPPort = "127.0.0.1", env.HTTPPort
+			conf.WSHost, conf.WSPort = "127.0.0.1", env.WSPort
+		}
 	}
 	stack, err := node.New(conf)
 	if err != nil {
@@ -140,28 +152,30 @@ func Start(o Options) (*Env, error) {
 			ks = b[0].(*keystore.KeyStore)
 		}
 	}
-	if ks == nil {
+	if ks == nil && !o.NoKeys {
 		cancel()
 		return nil, fmt.Errorf("no keystore backend")
 	}
 	env.Unlocked, env.Locked = Addresses()
 	k1, _ := crypto.HexToBtcec(keyUnlockedHx)
 	k2, _ := crypto.HexToBtcec(keyLockedHx)
-	if !ks.HasAddress(env.Unlocked) {
-		if _, err := ks.ImportECDSA(k1, PassUnlocked); err != nil {
-			cancel()
-			return nil, fmt.Errorf("import: %v", err)
+	if ks != nil {
+		if !ks.HasAddress(env.Unlocked) {
+			if _, err := ks.ImportECDSA(k1, PassUnlocked); err != nil {
+				cancel()
+				return nil, fmt.Errorf("import: %v", err)
+			}
 		}
-	}
-	if !ks.HasAddress(env.Locked) {
-		if _, err := ks.ImportECDSA(k2, PassLocked); err != nil {
-			cancel()
-			return nil, fmt.Errorf("import: %v", err)
+		if !ks.HasAddress(env.Locked) {
+			if _, err := ks.ImportECDSA(k2, PassLocked); err != nil {
+				cancel()
+				return nil, fmt.Errorf("import: %v", err)
+			}
 		}
-	}
-	if err := ks.Unlock(accounts.Account{Address: env.Unlocked}, PassUnlocked); err != nil {
-		cancel()
-		return nil, fmt.Errorf("unlock: %v", err)
+		if err := ks.Unlock(accounts.Account{Address: env.Unlocked}, PassUnlocked); err != nil {
+			cancel()
+			return nil, fmt.Errorf("unlock: %v", err)
+		}
 	}
 
 	rich, _ := new(big.Int).SetString("1000000000000000000000000", 10)
@@ -189,7 +203,7 @@ func Start(o Options) (*Env, error) {
 		// CreateConsensusEngine picks clique only when the PoW mode is the normal one
 		acfg.Aquahash = &aquahash.Config{PowMode: aquahash.ModeNormal}
 	}
-	acfg.ChainId = ChainID
+	acfg.ChainId = chainID
 	acfg.DatabaseCache = 16
 	acfg.TrieCache = 16
 	nodename := func() string {
